@@ -463,8 +463,15 @@ def ob_find_invalid(run):
 
 
 # ------------------------------------------------------------------ compositions over grammar tokens
+class NullWeights:
+    def __init__(self, of):
+        self.of = of
+
+
 class GTok:
     """Grammar token for contract-level composition: the set of shape facts known to hold."""
+
+    provenance = False      # C06 turns this on: shapes (C07) hold whatever chart is pushed, language preservation does not
 
     def __init__(self, facts, table, trace):
         self.facts = frozenset(facts)
@@ -475,19 +482,28 @@ class GTok:
         if name in self.table:
             def call(it, args, kw, name=name):
                 est, pres, needs = self.table[name](args, kw)
+                if name == "_push_null_weights" and self.provenance:
+                    nw = args[0] if args else kw.get("null_weight")
+                    if not (isinstance(nw, NullWeights) and nw.of is self):
+                        raise I.PyRaise("PreconditionError", "_push_null_weights requires the null weights of the grammar it is applied to "
+                                        f"(got {'those of an earlier stage' if isinstance(nw, NullWeights) else type(nw).__name__})", node)
                 missing = [n for n in needs if n not in self.facts]
                 if missing:
                     raise I.PyRaise("PreconditionError", f"{name} requires {missing}", node)
                 out = set(est) | {f for f in self.facts if f in pres}
                 self.trace.append((name, sorted(self.facts), sorted(out)))
-                return GTok(out, self.table, self.trace)
+                t = GTok(out, self.table, self.trace)
+                t.provenance = self.provenance
+                return t
             return I.Native(name, call)
         if name == "in_cnf":
             return I.Native("in_cnf", lambda it, a, k: True)   # assert new.in_cnf(): run-time guard, proved redundant below
         if name == "_find_invalid_cnf_rule":
             return I.Native("_find", lambda it, a, k: [])
         if name == "null_weight":
-            return I.Native("null_weight", lambda it, a, k: "null-weights")
+            # the chart of null weights is a function of THIS grammar (its rule set): _push_null_weights requires the chart of the
+            # grammar it is applied to - a chart computed before binarisation knows nothing about the fold nonterminals
+            return I.Native("null_weight", lambda it, a, k: NullWeights(self))
         raise I.OutOfSubset(f"no contract for CFG.{name} in composition")
 
 
@@ -522,6 +538,7 @@ def proved(run):
 
     est("CFG.binarize", "A2", hooks=hooks_binarize)
     pres("CFG.binarize", "T", hooks=hooks_binarize)
+    pres("CFG.binarize", "SR", hooks=hooks_binarize)      # lets the composition accept separate_start before binarize as well
     est("CFG.separate_start", "SR")
     pres("CFG.separate_start", "A2")
     pres("CFG.separate_start", "T")
@@ -543,7 +560,7 @@ def proved(run):
     trim_ok = any(o["name"] == "C07/cfg.CFG._trim/subset-and-symbols" and o["verdict"] == "proved" for o in run.obligations)
     table = {
         "separate_terminals": lambda a, k: ([f for f in ["T"] if ok("CFG.separate_terminals", "est", f)], [], []),
-        "binarize": lambda a, k: ([f for f in ["A2"] if ok("CFG.binarize", "est", f)], [f for f in ["T"] if ok("CFG.binarize", "pres", f)], []),
+        "binarize": lambda a, k: ([f for f in ["A2"] if ok("CFG.binarize", "est", f)], [f for f in ["T", "SR"] if ok("CFG.binarize", "pres", f)], []),
         "separate_start": lambda a, k: ([f for f in ["SR"] if ok("CFG.separate_start", "est", f)],
                                         [f for f in ["A2", "T"] if ok("CFG.separate_start", "pres", f)], []),
         "_push_null_weights": lambda a, k: ([f for f in ["NN"] if ok("CFG._push_null_weights", "est", f)],
@@ -634,7 +651,7 @@ def ob_unaryremove_nn(run):
     return True
 
 
-def compose(run, qual, name, table, start, kwargs, want, silent=False):
+def compose(run, qual, name, table, start, kwargs, want, silent=False, provenance=False, role="property"):
     fn = source.find(CFG, qual)
     if not silent:
         run.function_under_contract("genlm.grammar.cfg." + qual, source.sha(fn))
@@ -643,6 +660,7 @@ def compose(run, qual, name, table, start, kwargs, want, silent=False):
     def harness(path):
         it = I.Interp(path)
         tok = GTok(start, table, trace)
+        tok.provenance = provenance
         f2 = fn
         fobj = I.FuncObj(f2, I.Env(None, {}), qual, kind="func")
         return it.call_func(fobj, [tok], dict(kwargs))
@@ -651,7 +669,7 @@ def compose(run, qual, name, table, start, kwargs, want, silent=False):
         results = I.explore(harness, prune=False)
     except I.PyRaise as e:
         if name and not silent:
-            run.obligation(name, "refuted", detail=f"stage precondition not established: {e}", replay=dict(replayed=False, trace=trace),
+            run.obligation(name, "refuted", role=role, detail=f"stage precondition not established: {e}", replay=dict(replayed=False, trace=trace),
                            signature=qual + ":composition")
         return None
     except I.OutOfSubset as e:
@@ -667,7 +685,7 @@ def compose(run, qual, name, table, start, kwargs, want, silent=False):
         facts = set(ret.facts) if facts is None else facts & set(ret.facts)
     if name and not silent:
         if want <= (facts or set()):
-            run.obligation(name, "proved", backend="pyvc", detail=f"stages {[t[0] for t in trace]} establish {sorted(facts)}")
+            run.obligation(name, "proved", role=role, backend="pyvc", detail=f"stages {[t[0] for t in trace]} establish {sorted(facts)}")
         else:
             run.obligation(name, "refuted", detail=f"stages {[t[0] for t in trace]} establish only {sorted(facts or [])}, need {sorted(want)}",
                            replay=dict(replayed=False, trace=[list(t) for t in trace]), signature=qual + ":composition")
